@@ -567,7 +567,11 @@ def run(ck):
                 with quiet():
                     for step_, who in enumerate(turns):
                         objs[who].data = numpy.array(objs[who].data) + 0.25      # the object moved on since it was saved last
-                        objs[who].savedir(dname)
+                        if step_ == 1 and rnd3 % 3 == 1:
+                            objs[who].savedir(dname, tag=7)           # one snapshot under an explicit (larger) tag; automatic tags go on after it
+                            inp["explicit_tag_at_step_1"] = 7
+                        else:
+                            objs[who].savedir(dname)
                         saved.append(numpy.array(objs[who].data).copy())
                     if rnd3 % 2 == 1:
                         # a resumed series: the latest snapshot is taken from the directory, changed and saved back
